@@ -54,6 +54,7 @@ class Run:
                     "samples": [], "evaluations": 0, "distinct_nontrivial": 0}
         self.assumptions = []
         self.violations = []
+        self.coverage_errors = []
         self.known_seen = {}
         self.notes = []
         self._distinct = set()
@@ -100,7 +101,18 @@ class Run:
     def machinery_error(self, msg):
         self.machinery_errors.append(msg)
 
+    def coverage_error(self, msg):
+        """A vacuity finding about REAL executions ("no observed save used a temp file"): a machinery error when nothing
+        else was found, but not allowed to mask violations established on the same executions (a change of the code
+        can be the reason why an action was never observed)."""
+        self.coverage_errors.append(msg)
+
     def finish(self):
+        if self.coverage_errors:
+            if self.violations:
+                self.cov["coverage_notes"] = self.coverage_errors
+            else:
+                self.machinery_errors += self.coverage_errors
         self.cov["distinct_nontrivial"] = len(self._distinct)
         wall = time.time() - self.t0
         os.makedirs(EVIDENCE_DIR, exist_ok=True)
